@@ -1037,6 +1037,13 @@ class _Interp:
             mname = e.func.attr
             module_like = [fn for fn in recv.funcs if isinstance(fn, tuple) and fn[0] in ("extmod", "ext", "pkgmod")]
             class_like = [fn for fn in recv.funcs if isinstance(fn, tuple) and fn[0] == "class"]
+            if mname == "__new__" and not class_like and pos and any(isinstance(g, tuple) and g[0] == "class" for g in pos[0].funcs):
+                # object.__new__(Class) / super().__new__(Class)
+                out = BOTTOM
+                for g in pos[0].funcs:
+                    if isinstance(g, tuple) and g[0] == "class":
+                        out = join(out, AV(origins=[("F", self.site(e, f"new:{g[1].name}"))], types=[g[1].name]))
+                return out
             if module_like:
                 callee = self.e_Attribute(e.func, st)
                 return self.call_value(e, st, callee, pos, kw, star_extra, kw_extra)
@@ -1044,6 +1051,16 @@ class _Interp:
                 out = BOTTOM
                 for fn in class_like:
                     m = fn[1].find_method(mname)
+                    if m is None and mname == "__new__":
+                        # Class.__new__(Class): a bare object of the class (of the class named by the first argument when it is one);
+                        # its fields are whatever is stored into it afterwards
+                        target = fn[1]
+                        for a0 in pos[:1]:
+                            for g in a0.funcs:
+                                if isinstance(g, tuple) and g[0] == "class":
+                                    target = g[1]
+                        out = join(out, AV(origins=[("F", self.site(e, f"new:{target.name}"))], types=[target.name]))
+                        continue
                     if m is None:
                         continue
                     if m.kind == "classmethod":
